@@ -10,7 +10,7 @@ struct Obj { char payload; };
 static const int NLINK = 4;
 struct World {
   atomics::atomic<Obj*> link[NLINK];
-  static const int NPOOL = 600; atomics::atomic<Obj*> pool[NPOOL]; atomics::atomic<int> signals;   // holdn / retpool / signal / await
+  static const int NPOOL = 600; atomics::atomic<Obj*> pool[NPOOL]; atomics::atomic<int> signals; int pool_used = 0;   // holdn / retpool / signal / await
   std::vector<char*> slabs; int next_id = 1; bool odd = false;
   Obj* make() { char* m = (char*)malloc(16); slabs.push_back(m); Obj* o = (Obj*)(m + (odd ? 9 : 8)); o->payload = 1; vs::mem_register(o, 1, next_id++); return o; }
   ~World() { for (auto p : slabs) free(p); }
@@ -25,7 +25,7 @@ template <class GC> struct ThreadState { std::vector<typename GC::Guard*> g; std
   ThreadState(int n) : g(n, nullptr), held(n, nullptr) {}
   // the guard-release window is bracketed by pbeg/pend: the hazard slot still holds the pointer until the release completes
   void drop_all() { xev("pbeg"); for (size_t i = 0; i < g.size(); ++i) if (g[i]) { if (held[i]) xev("gclr", (long)i); held[i] = nullptr; delete g[i]; g[i] = nullptr; }
-    for (size_t i = 0; i < extra.size(); ++i) { xev("gclr", (long)(1000 + i)); delete extra[i]; } extra.clear(); xev("pend"); } };
+    for (size_t i = 0; i < extra.size(); ++i) if (extra[i]) { xev("gclr", (long)(1000 + i)); delete extra[i]; } extra.clear(); xev("pend"); } };
 
 template <class GC> static void run_smr_program(const Program& P, int nslots, bool func_retire) {
   auto retire_obj = [&](Obj* o) { if (!o) return; xev("retire", id_of(o)); xev("pass"); if (func_retire) GC::template retire<Obj>(o, disposer_fn); else GC::template retire<ObjDisposer>(o); };
@@ -46,8 +46,10 @@ template <class GC> static void run_smr_program(const Program& P, int nslots, bo
       else if (o.name == "attach") { if (!ts.attached) { attach(); ts.attached = true; } }
       else if (o.name == "yield") { sched_yield(); }
       // holdn:n  -- create n objects in the pool links, each protected by a guard of its own (DHP: any number of guards)
-      else if (o.name == "holdn") { if (!ts.attached) continue; for (long i = 0; i < o.arg(0) && i < World::NPOOL; ++i) { W->pool[i].store(W->make()); typename GC::Guard* g = new typename GC::Guard;
-          xev("pbeg"); Obj* p = g->protect(W->pool[i]); xev("pend"); xev("gset", (long)(1000 + ts.extra.size()), id_of(p)); ts.extra.push_back(g); } }
+      else if (o.name == "holdn") { if (!ts.attached) continue; for (long i = 0; i < o.arg(0) && W->pool_used < World::NPOOL; ++i) { int slot = W->pool_used++; W->pool[slot].store(W->make()); typename GC::Guard* g = new typename GC::Guard;
+          xev("pbeg"); Obj* p = g->protect(W->pool[slot]); xev("pend"); xev("gset", (long)(1000 + ts.extra.size()), id_of(p)); ts.extra.push_back(g); } }
+      // relsome:n -- release the first n still held pool guards
+      else if (o.name == "relsome") { long n = o.arg(0); xev("pbeg"); for (size_t i = 0; i < ts.extra.size() && n > 0; ++i) if (ts.extra[i]) { xev("gclr", (long)(1000 + i)); delete ts.extra[i]; ts.extra[i] = nullptr; --n; } xev("pend"); }
       else if (o.name == "retpool") { if (!ts.attached) continue; for (int i = 0; i < World::NPOOL; ++i) { Obj* old = W->pool[i].exchange(nullptr); retire_obj(old); } }
       else if (o.name == "signal") { W->signals.fetch_add(1); }
       else if (o.name == "await") { while (W->signals.load() < (int)o.arg(0)) sched_yield(); }
